@@ -259,6 +259,50 @@ def reindent_spec_random(rng):
                                  indent_after_first=rng.random() < .3)
 
 
+# hand-built statements that `parse` cannot produce, one per exception path of the indent filters
+def T(tt, v): return '[ %s%s ]' % (tt, ''.join(' %x' % ord(c) for c in v))
+def G(c, *kids): return '( %s%s )' % (c, ''.join(' ' + k for k in kids))
+ws = T('Text.Whitespace', ' '); kw = lambda v: T('Keyword', v); nm = lambda v: T('Name', v); pu = lambda v: T('Punctuation', v)
+I = lambda v: G('Identifier', nm(v))
+TARGETED_TREES = {
+ 'case-else-first': G('Statement', G('Case', kw('case'), kw('else'), ws, T('Literal.Number.Integer','1'), ws, kw('end'))),
+ 'case-only': G('Statement', G('Case', kw('case'))),
+ 'case-only-end': G('Statement', G('Case', kw('case'), kw('end'))),
+ 'case-empty-first': G('Statement', G('Case', G('Identifier'), kw('case'), ws, kw('when'), ws, nm('a'), ws, kw('then'), ws, nm('b'), ws, kw('end'))),
+ 'case-empty-cond': G('Statement', G('Case', kw('case'), G('Identifier'), ws, kw('when'), ws, nm('a'), ws, kw('then'), ws, nm('b'), ws, kw('end'))),
+ 'case-noend': G('Statement', nm('x'), ws, G('Case', kw('case'), ws, kw('when'), ws, nm('a'), ws, kw('then'), ws, nm('b'), ws, kw('else'), ws, nm('c'))),
+ 'case-normal2': G('Statement', kw('select'), ws, G('Case', kw('case'), ws, nm('x'), ws, kw('when'), ws, nm('a'), ws, kw('then'), ws, nm('b'), ws, kw('when'), ws, nm('cc'), ws, kw('then'), ws, nm('d'), ws, kw('else'), ws, nm('e'), ws, kw('end'))),
+ 'func-trailing-comma': G('Statement', G('Function', I('f'), G('Parenthesis', pu('('), G('IdentifierList', I('a'), pu(',')), pu(')')))),
+ 'func-comma-group': G('Statement', G('Function', I('f'), G('Parenthesis', pu('('), G('IdentifierList', I('a'), G('Identifier', pu(',')), I('b')), pu(')')))),
+ 'func-long': G('Statement', kw('select'), ws, G('Function', I('func_name'), G('Parenthesis', pu('('), G('IdentifierList', I('aaaaaaaaaa'), pu(','), I('bbbbbbbbbbbb'), pu(','), ws, I('cccccccccc')), pu(')'))), ws, G('Function', I('g'), G('Parenthesis', pu('('), G('IdentifierList', I('aaaaaaaaaa'), pu(','), I('bbbbbbbbbbbb')), pu(')')))),
+ 'values-empty-paren': G('Statement', G('Values', kw('values'), ws, G('Parenthesis'), pu(','), G('Parenthesis', pu('('), pu(')')))),
+ 'values-normal': G('Statement', kw('insert'), ws, G('Values', kw('values'), ws, G('Parenthesis', pu('('), nm('a'), pu(')')), pu(','), ws, G('Parenthesis', pu('('), nm('b'), pu(')')), pu(','), G('Parenthesis', pu('('), nm('c'), pu(')')))),
+ 'idlist-empty-first': G('Statement', G('IdentifierList', G('Identifier'), pu(','), I('b'))),
+ 'idlist-only-commas': G('Statement', G('IdentifierList', pu(','), ws, pu(','))),
+ 'idlist-prev-not-comma': G('Statement', G('IdentifierList', I('aaaa'), ws, I('bbbb'), pu(','), T('Text.Whitespace.Newline','\n'), I('cccc'), pu(','), I('d'))),
+ 'idlist-in-values': G('Statement', G('Values', kw('values'), G('Parenthesis', pu('('), G('IdentifierList', I('a'), pu(','), I('b')), pu(')')))),
+ 'paren-no-open': G('Statement', G('Parenthesis', nm('a'), pu(')'))),
+ 'paren-dml': G('Statement', nm('x'), ws, G('Parenthesis', pu('('), T('Keyword.DML','select'), ws, nm('a'), ws, kw('from'), ws, nm('t'), pu(')'))),
+ 'paren-open-late': G('Statement', G('Parenthesis', G('Identifier'), nm('q'), pu('('), T('Keyword.DML','select'), pu(')'))),
+ 'where-nokw': G('Statement', G('Where', nm('a'), ws, kw('and'), ws, nm('b'))),
+ 'between-chain': G('Statement', nm('a'), ws, kw('between'), ws, kw('between'), ws, kw('and'), ws, kw('and'), ws, kw('or'), ws, kw('between'), ws, nm('x'), ws, kw('and'), ws, kw('from'), ws, kw('order  by'), ws, kw('FOR'), ws, kw('offset')),
+ 'empty-function': G('Statement', G('Function')),
+ 'empty-stmt': G('Statement'),
+ 'nested-stmt': G('Statement', ws, G('Statement', ws, nm('a'))),
+}
+
+
+def targeted_scripts(rng, which, reps=25):
+    out = []
+    for name, t in TARGETED_TREES.items():
+        for _ in range(reps):
+            ch = indent_chain(rng, which)
+            if rng.random() < .5:
+                ch = ch.replace('stripws,', '').replace('stripcomments,', '').replace('spaces,', '')
+            out.append(([t] * rng.randint(1, 2), ch))
+    return out
+
+
 def indent_chain(rng, which):
     r = reindent_spec_random(rng)
     a = 'aligned:' + rng.choice(['20', '20', '9'])
@@ -370,7 +414,7 @@ def main():
         # scripts of mutated trees, two or three statements each (reaches the exception paths)
         mt = mutated_trees(a.seed * 100 + 50 + len(which), max(500, a.n // 10))
         scripts = [(mt[j:j + rng.randint(1, 3)], indent_chain(rng, which)) for j in range(0, len(mt), 3)]
-        n += streams.s_treescript(ctx, [], stream=name, scripts=scripts)
+        n += streams.s_treescript(ctx, [], stream=name, scripts=scripts + targeted_scripts(rng, which))
         print('%s done: %d statements, %.0fs' % (name, n, time.time() - t0), flush=True)
     if want('fmtfull'):
         rng = random.Random('vff-%d' % a.seed)
